@@ -12,7 +12,6 @@ import (
 	"testing/synctest"
 	"time"
 
-	"github.com/0xReLogic/Helios/internal/adminapi"
 	"github.com/0xReLogic/Helios/internal/loadbalancer"
 	"github.com/0xReLogic/Helios/verifharness/lab"
 	"pgregory.net/rapid"
@@ -31,6 +30,7 @@ type hcfg struct {
 	Active    bool   `json:"active"`
 	IntervalS int    `json:"interval_s,omitempty"`
 	TimeoutS  int    `json:"timeout_s,omitempty"`
+	Life      life   `json:"life"`
 }
 
 type bstate struct {
@@ -60,6 +60,8 @@ type world struct {
 	metricsH   http.HandlerFunc
 	adminH     http.Handler
 	nLateResp  int // responses of long-running requests that arrived after their backend's state had changed
+	known      int // bystander names the process has come to know so far (see life_test.go)
+	churned    int // bystanders that came and went between two events of the history
 }
 
 type heldReq struct {
@@ -130,26 +132,24 @@ func (w *world) absorbProbes() {
 
 type reports struct{ list, health, metrics bool }
 
-func (w *world) reported(i int) (r reports, err string) {
-	name := lab.BackendName(i)
-	found := false
+// reading is one read of every endpoint that reports backend health.
+type reading struct {
+	list    map[string]bool // ListBackends
+	admin   map[string]bool // GET /v1/backends
+	health  map[string]bool // /health, nil when it was not read
+	metrics map[string]bool // /metrics, nil when it was not read
+}
+
+// read reads the endpoints. full=false leaves /health and /metrics out (their documents list every name the
+// process has ever known; see reported).
+func (w *world) read(full bool) (rd reading, err string) {
+	rd.list, rd.admin = map[string]bool{}, map[string]bool{}
 	for _, bi := range w.lb.ListBackends() {
-		if bi.Name == name {
-			r.list, found = bi.Healthy, true
-		}
-	}
-	if !found {
-		return r, "backend missing from ListBackends"
+		rd.list[bi.Name] = bi.Healthy
 	}
 	// the endpoints are mounted once per balancer, as a server mounts them: whatever a handler keeps
 	// between two reads is part of what is observed
-	if w.healthH == nil {
-		mc := w.lb.GetMetricsCollector()
-		w.healthH, w.metricsH = mc.HealthHandler(), mc.MetricsHandler()
-		acfg := lab.BaseConfig(w.c.Strategy, lab.Ones(w.c.N))
-		acfg.AdminAPI.Enabled, acfg.AdminAPI.Port = true, 9091
-		w.adminH = adminapi.NewMux(w.lb, acfg, mc)
-	}
+	w.mount()
 	// the admin API's own listing must agree with the balancer's
 	{
 		arec := httptest.NewRecorder()
@@ -161,53 +161,124 @@ func (w *world) reported(i int) (r reports, err string) {
 			Healthy bool   `json:"healthy"`
 		}
 		if e := json.Unmarshal(arec.Body.Bytes(), &al); e != nil {
-			return r, "/v1/backends is not JSON: " + e.Error()
+			return rd, "/v1/backends is not JSON: " + e.Error()
 		}
 		for _, b := range al {
-			if b.Name == name && b.Healthy && !r.list {
-				r.list = true // reported healthy by the admin endpoint although the balancer's listing says unhealthy
-			}
+			rd.admin[b.Name] = rd.admin[b.Name] || b.Healthy
 		}
+	}
+	if !full {
+		return rd, ""
 	}
 	rec := httptest.NewRecorder()
 	w.healthH(rec, httptest.NewRequest("GET", "/health", nil))
+	// the documents have an entry for every name the process knows; only the monitored backends' entries are decoded
 	var h struct {
-		Backends map[string]struct {
-			Healthy bool `json:"healthy"`
-		} `json:"backends"`
+		Backends map[string]json.RawMessage `json:"backends"`
 	}
 	if e := json.Unmarshal(rec.Body.Bytes(), &h); e != nil {
-		return r, "/health is not JSON: " + e.Error()
+		return rd, "/health is not JSON: " + e.Error()
 	}
-	hb, ok := h.Backends[name]
-	if !ok {
-		return r, "/health lacks backend " + name
+	rd.health = map[string]bool{}
+	for i := 0; i < w.c.N; i++ {
+		if raw, ok := h.Backends[lab.BackendName(i)]; ok {
+			var b struct {
+				Healthy bool `json:"healthy"`
+			}
+			if e := json.Unmarshal(raw, &b); e != nil {
+				return rd, "/health is not JSON: " + e.Error()
+			}
+			rd.health[lab.BackendName(i)] = b.Healthy
+		}
 	}
-	r.health = hb.Healthy
 	rec = httptest.NewRecorder()
 	w.metricsH(rec, httptest.NewRequest("GET", "/metrics", nil))
 	var mm struct {
-		BackendMetrics map[string]struct {
-			IsHealthy bool `json:"is_healthy"`
-		} `json:"backend_metrics"`
+		BackendMetrics map[string]json.RawMessage `json:"backend_metrics"`
 	}
 	if e := json.Unmarshal(rec.Body.Bytes(), &mm); e != nil {
-		return r, "/metrics is not JSON: " + e.Error()
+		return rd, "/metrics is not JSON: " + e.Error()
 	}
-	mb, ok := mm.BackendMetrics[name]
-	if !ok {
+	rd.metrics = map[string]bool{}
+	for i := 0; i < w.c.N; i++ {
+		if raw, ok := mm.BackendMetrics[lab.BackendName(i)]; ok {
+			var b struct {
+				IsHealthy bool `json:"is_healthy"`
+			}
+			if e := json.Unmarshal(raw, &b); e != nil {
+				return rd, "/metrics is not JSON: " + e.Error()
+			}
+			rd.metrics[lab.BackendName(i)] = b.IsHealthy
+		}
+	}
+	return rd, ""
+}
+
+// of extracts what a reading says about backend i.
+func (rd reading) of(i int) (r reports, err string) {
+	name := lab.BackendName(i)
+	var found bool
+	if r.list, found = rd.list[name]; !found {
+		return r, "backend missing from ListBackends"
+	}
+	if rd.admin[name] && !r.list {
+		r.list = true // reported healthy by the admin endpoint although the balancer's listing says unhealthy
+	}
+	if rd.health == nil {
+		return r, ""
+	}
+	if r.health, found = rd.health[name]; !found {
+		return r, "/health lacks backend " + name
+	}
+	if r.metrics, found = rd.metrics[name]; !found {
 		return r, "/metrics lacks backend " + name
 	}
-	r.metrics = mb.IsHealthy
 	return r, ""
+}
+
+// reported reads every endpoint and says what they report about backend i.
+func (w *world) reported(i int) (r reports, err string) {
+	rd, e := w.read(true)
+	if e != "" {
+		return r, e
+	}
+	return rd.of(i)
+}
+
+// listed is reported for a caller that looks at the listings only (r.list). In a process that knows hundreds of
+// names and more, /health and /metrics - whose documents carry an entry for every one of them - are left to the
+// invariant, which reads them after the same event at the same instant.
+func (w *world) listed(i int) (r reports, err string) {
+	if !w.c.Life.heavy() {
+		return w.reported(i)
+	}
+	rd, e := w.read(false)
+	if e != "" {
+		return r, e
+	}
+	return rd.of(i)
 }
 
 // invariant: R6 (an ejected backend is never reported healthy) and "no unexplained ejection".
 func (w *world) invariant() string {
 	now := time.Now()
+	var shared reading
+	if w.c.Life.heavy() {
+		// one read for all backends (no time passes between the reads of one invariant check anyway)
+		var e string
+		if shared, e = w.read(true); e != "" {
+			return e
+		}
+	}
 	for i := 0; i < w.c.N; i++ {
 		host := lab.BackendHost(i)
-		r, e := w.reported(i)
+		var r reports
+		var e string
+		if w.c.Life.heavy() {
+			r, e = shared.of(i)
+		} else {
+			r, e = w.reported(i)
+		}
 		if e != "" {
 			return e
 		}
@@ -265,7 +336,7 @@ func (w *world) outcome(host string, at time.Time, status int, healthyBefore boo
 	if !w.c.Passive {
 		return ""
 	}
-	r, e := w.reported(indexOfHost(host, w.c.N))
+	r, e := w.listed(indexOfHost(host, w.c.N))
 	if e != "" {
 		return e
 	}
@@ -361,22 +432,31 @@ func genCfg(rt *rapid.T) hcfg {
 		c.IntervalS = rapid.SampledFrom([]int{2, 3, 4, 5, 5, 30, 600}).Draw(rt, "interval")
 		c.TimeoutS = rapid.IntRange(1, min(c.IntervalS-1, 5)).Draw(rt, "timeout")
 	}
+	c.Life = genLife(rt, c.N, true)
 	return c
 }
 
 func TestC04HealthStateMachine(t *testing.T) {
 	sub := lab.Sub("health-state-machine", "rapid histories over per-backend events {set proxied behaviour good/5xx/unreachable, set probe ok/fail/held, request, advance (< window, > window, around probe interval), release held probe ok/fail, recovery burst} "+
-		"plus long-running requests whose (good/5xx) response arrives later, and backends sending a 103 interim response before the final status; against the real balancer in virtual time: 5 strategies x threshold 1-4 x window 1-5 s x passive on/off x active on/off (interval 2-5 s, 30 s or 600 s, i.e. shorter and much longer than the window; Helios's own ticker) x 1-3 backends; monitor R1 only-after-threshold, R2 must-eject-after-threshold-in-a-row, R3 failed probe ejects / nothing else does, "+
+		"plus long-running requests whose (good/5xx) response arrives later, and backends sending a 103 interim response before the final status; against the real balancer in virtual time: 5 strategies x threshold 1-4 x window 1-5 s x passive on/off x active on/off (interval 2-5 s, 30 s or 600 s, i.e. shorter and much longer than the window; Helios's own ticker) x 1-3 backends "+
+		"x the life of the process so far: fresh, or other backends (bystanders, never in the pool during a monitored request, names of their own) have come and gone - a few, hundreds, as many names as metrics.MaxBackendMetrics or up to twice that; one by one, in batches, under recycled names, or configured and then removed; through the Admin API handlers or the balancer's methods - and a few more come and go between two events of the history; the monitor's demands do not depend on it; monitor R1 only-after-threshold, R2 must-eject-after-threshold-in-a-row, R3 failed probe ejects / nothing else does, "+
 		"R4 no traffic inside the window (incl. late probe results), R5 traffic returns after the window under every strategy, R6 ejected never reported healthy by ListBackends, /health, /metrics; "+
 		"non-trivial = at least one ejection and a request issued after its window had elapsed")
 	sub.NontrivialFloor(0.25)
+	sub.Floor(lifeFew, 0.06)
+	sub.Floor(lifeAtCap, 0.008)
 	lab.Assume("L1: scripted RoundTripper replaces http.Transport and http.DefaultTransport (probes); virtual time via testing/synctest; instants exactly on a window boundary or on the probe tick grid are avoided (ordering there is not specified)")
 	maxLen := lab.Scale(40, 100)
+	maxLenHeavy := lab.Scale(10, 24)
 	fnHolder := lab.NewFakeNet() // replaced per case; the default transport indirection is set once
 	_ = fnHolder
 	lab.Check(t, sub, 2500, 60000, func(rt *rapid.T) {
 		c := genCfg(rt)
 		steps := rapid.IntRange(1, maxLen).Draw(rt, "steps")
+		if c.Life.heavy() {
+			// every read of /metrics and /health lists every name the process knows: shorter histories
+			steps = min(steps, maxLenHeavy)
+		}
 		var viol string
 		probedAll := false
 		var w *world
@@ -389,6 +469,7 @@ func TestC04HealthStateMachine(t *testing.T) {
 				cfg.HealthChecks.Passive.UnhealthyTimeout = c.WindowS
 				cfg.HealthChecks.Active.Enabled = c.Active
 				cfg.HealthChecks.Active.Interval, cfg.HealthChecks.Active.Timeout, cfg.HealthChecks.Active.Path = c.IntervalS, c.TimeoutS, "/healthz"
+				c.Life.configure(cfg)
 				if err := cfg.Validate(); err != nil {
 					rt.Fatalf("harness: config rejected: %v", err)
 				}
@@ -411,7 +492,19 @@ func TestC04HealthStateMachine(t *testing.T) {
 					fn.ReleaseAll()
 					synctest.Wait()
 				}()
+				// the life of the process so far: bystanders of the configuration go before the first probe round
+				// has been answered, the others come and go after it
+				if c.Life.Shape == "configured-then-removed" {
+					if e := w.live(c.Life); e != "" {
+						rt.Fatalf("%s", e)
+					}
+				}
 				synctest.Wait()
+				if c.Life.Shape != "configured-then-removed" {
+					if e := w.live(c.Life); e != "" {
+						rt.Fatalf("%s", e)
+					}
+				}
 				behaviours := []lab.Behaviour{lab.Good, lab.Status5xx, lab.Status5xx, lab.Unreachable, lab.Status4xx, lab.Interim5xx, lab.InterimGood}
 				for i := 0; i < c.N; i++ {
 					b := rapid.SampledFrom(behaviours).Draw(rt, "initial")
@@ -448,8 +541,21 @@ func TestC04HealthStateMachine(t *testing.T) {
 					if due {
 						wRec = 30
 					}
-					k := rapid.IntRange(0, wReq+wSet+wProbe+wAdv+wRel+wRec+wHold+wRelReq-1).Draw(rt, "op")
+					wChurn := 1
+					if c.Life.Class == lifeAtCap {
+						wChurn = 8 // a process close to a table bound: the next few names cross it, in the middle of the history
+					}
+					wAll := wReq + wSet + wProbe + wAdv + wRel + wRec + wHold + wRelReq
+					k := rapid.IntRange(0, wAll+wChurn-1).Draw(rt, "op")
 					switch {
+					case k >= wAll: // the pool changes while the process runs: bystanders come and go between two events
+						ch := genChurn(rt)
+						w.settle()
+						if e := w.live(ch); e != "" {
+							rt.Fatalf("%s", e)
+						}
+						w.churned += ch.Ops
+						w.hist = append(w.hist, fmt.Sprintf("bystanders(%d,%s,%s)", ch.Ops, ch.Shape, ch.Via))
 					case k >= wReq+wSet+wProbe+wAdv+wRel+wRec+wHold: // response of a long-running request arrives now
 						j := rapid.IntRange(0, len(w.holds)-1).Draw(rt, "relreq")
 						for f := range w.holds {
@@ -463,7 +569,7 @@ func TestC04HealthStateMachine(t *testing.T) {
 						as := rapid.SampledFrom([]lab.Behaviour{lab.Good, lab.Status5xx, lab.Status5xx}).Draw(rt, "as")
 						w.settle()
 						idx := indexOfHost(h.host, c.N)
-						before, _ := w.reported(idx)
+						before, _ := w.listed(idx)
 						if !before.list || w.inWindow(h.host, time.Now()) {
 							w.nLateResp++
 						}
@@ -570,6 +676,10 @@ func TestC04HealthStateMachine(t *testing.T) {
 			})
 		})
 		labels := []string{c.Strategy, fmt.Sprintf("threshold%d", c.Threshold)}
+		labels = append(labels, lifeLabels(c.Life, w.churned)...)
+		if w.nEject > 0 && (c.Life.Class == lifeAtCap || c.Life.Class == lifeBeyond) {
+			labels = append(labels, "ejection-in-a-process-that-knows-as-many-names-as-the-metrics-table-holds")
+		}
 		if probedAll {
 			labels = append(labels, "probe-round-completed")
 		}
